@@ -3,7 +3,7 @@ prove (Lean: pre-image lemmas on wrapped intervals, bound bookkeeping) -> oracle
 satisfying assignment of every generated constraint is enumerated (width <= 8, 1..2 variables)."""
 import collections, itertools, logging, pickle
 
-from lib import vsa, vsa_expr as vx
+from lib import vsa, vsa_expr as vx, vsa_balancer as vb
 
 PROP = "C25"
 P = "Claripy.Props.C25."
@@ -72,6 +72,69 @@ def pair_correspondence(ctx):
     if bad:
         ctx.tie_broken("corr:balance_add_pair", bad)
     return n
+
+
+def balancer_correspondence(ctx, cases):
+    """the Lean model of the balancer (Claripy/VSA/BalancerModel.lean, driver command `balance`) vs the REAL
+    constraint_to_si on the generated constraints: same satisfiable flag, same replacement targets, same recorded
+    (lower, upper) pair and the same interval `convert(bound)` for every target - or the same exception.
+    Outside the model's fragment (counted, see the header of the model): the excavated constraint is not a single
+    comparison of bit-vectors; n-ary +, Concat, ...; /u; the other side of the comparison is not a literal; the
+    result depends on the construction-time simplifiers of Extract / == / != (two real runs disagree)."""
+    import claripy
+    st = collections.Counter()
+    lines, wants, descs = [], [], []
+    for c, xs, annos in cases:
+        try:
+            e = claripy.excavate_ite(c)
+        except Exception:  # noqa
+            st["skipped:excavate-raises"] += 1
+            continue
+        if not vb.is_single_comparison(e):
+            st["skipped:not-a-single-comparison"] += 1
+            continue
+        vi = {x.args[0]: j for j, x in enumerate(xs)}
+        try:
+            toks = vb.serialize(e, vi)
+        except vx.Unmodelled as u:
+            st["skipped:" + str(u)] += 1
+            continue
+        r1 = vb.real_result(c, vi)
+        with vb.simplifiers_off():
+            r2 = vb.real_result(c, vi)
+        if r1 != r2:
+            st["skipped:depends-on-extract-eq-ne-simplifiers"] += 1
+            continue
+        lines.append("balance %s ; %s" % (vb.fmt_annos(xs, annos), " ".join(toks)))
+        wants.append(r1)
+        descs.append(str(c))
+    outs = ctx.driver(lines, exe="driver_vsa") if lines else []
+    bad = None
+    paths = collections.Counter()
+    for o, want, d, ln in zip(outs, wants, descs, lines):
+        got, info = vb.model_result(o)
+        if got[0] == "unmodelled":
+            st["skipped:model-" + got[1]] += 1
+            continue
+        st["compared"] += 1
+        ctx.cov["traces_validated_against_impl"] += 1
+        if got == want:
+            st["agree:" + (want if isinstance(want, str) else want[0])] += 1
+            if info:
+                paths[" | ".join(x.strip().split(".")[0] or "none" for x in info.split(" | "))] += 1
+        else:
+            st["DISAGREE"] += 1
+            if bad is None:
+                bad = "%s   [%s]   model=%s real=%s" % (d, ln, o, want)
+    ctx.cov["balancer_correspondence"] = dict(st)
+    ctx.cov["balancer_paths(main | assumption: m = constant moved across +/-, p = other arm)"] = dict(paths)
+    skipped = sum(v for k, v in st.items() if k.startswith("skipped:model-") or k.startswith("skipped:depends"))
+    if bad:
+        ctx.tie_broken("corr:balancer", bad + "  [%d disagreement(s) of %d]" % (st["DISAGREE"], st["compared"]))
+    elif st["compared"] and skipped * 5 > st["compared"]:
+        # the fragment is meant to cover the generator: a model that declares most inputs unmodelled ties nothing
+        ctx.tie_broken("corr:balancer", "the model skips %d inputs for %d compared" % (skipped, st["compared"]))
+    return st
 
 CMPS = ["ULT", "ULE", "UGT", "UGE", "SLT", "SLE", "SGT", "SGE", "eq", "ne"]
 
@@ -400,6 +463,7 @@ def run(ctx):
     ctx.prove("ClaripyProofs.Props.C25", THEOREMS, tests=TESTS, driver_exe="driver_vsa")
     ctx.cov["pair_correspondence_cases"] = pair_correspondence(ctx)
     rng = ctx.rng
+    corr_cases = []
     fails = collections.defaultdict(list)
     stats = collections.Counter()
     for i in range(ctx.pick(6000, 150000)):
@@ -427,6 +491,7 @@ def run(ctx):
         if not hasattr(c, "op") or c.op == "BoolV":
             stats["folded_to_constant"] += 1
             continue
+        corr_cases.append((c, xs, annos))
         r = check_constraint(c, xs, annos)
         if r and r[0] == "skip":
             stats["skipped:" + r[1]] += 1
@@ -457,6 +522,7 @@ def run(ctx):
             if not hasattr(c, "op") or c.op == "BoolV":
                 stats["folded_to_constant"] += 1
                 continue
+            corr_cases.append((c, cxs, cas))
             r = check_constraint(c, cxs, cas)
             if r and r[0] == "skip":
                 stats["skipped:" + r[1]] += 1
@@ -466,6 +532,9 @@ def run(ctx):
             ctx.distinct(str(c))
             if r:
                 fails[r[0]].append((len(str(c)), r[1], c, cxs, cas))
+    # the tie of the Lean balancer model: quick compares a fixed share of the stream (every layered case, every second random one)
+    corr_cases = [t for i, t in enumerate(corr_cases) if i % ctx.pick(2, 4) == 0 or str(t[1][0].args[0]).startswith("l_")]
+    balancer_correspondence(ctx, corr_cases)
     for sig, lst in sorted(fails.items()):
         ln, what, c, xs, annos = min(lst, key=lambda t: (t[0], t[1]))
         ctx.violation(sig, what + "  [%d case(s)]" % len(lst), {
